@@ -95,7 +95,9 @@ func selectSourceNode(nodes []*yaml.RNode, selector *types.SourceSelector) (*yam
 
 func getRefinedValue(options *types.FieldOptions, rn *yaml.RNode) (*yaml.RNode, error) {
 	if options == nil || options.Delimiter == "" {
-		return rn, nil
+		// a copy: the source field may itself be one of the targets, and what the
+		// other targets receive must not depend on the order they are written in
+		return rn.Copy(), nil
 	}
 	if rn.YNode().Kind != yaml.ScalarNode {
 		return nil, fmt.Errorf("delimiter option can only be used with scalar nodes")
